@@ -111,11 +111,24 @@ func init() {
 			}
 		}
 		// further args: method rel line char (repeated)
+		opened := map[string]bool{}
 		for i := 1; i+3 < len(args); i += 4 {
 			rel := args[i+1]
 			line, _ := strconv.Atoi(args[i+2])
 			ch, _ := strconv.Atoi(args[i+3])
-			srv.DidOpen(ws.URI(rel), files[rel])
+			if args[i] == "didChangeFull" {
+				// args: didChangeFull <rel> <version> <unused>; new text from env PROBE_TEXT_FILE
+				b, _ := os.ReadFile(os.Getenv("PROBE_TEXT_FILE"))
+				srv.DidOpen(ws.URI(rel), files[rel])
+				srv.DidChangeFull(ws.URI(rel), line+2, string(b))
+				files[rel] = string(b)
+				opened[rel] = true
+				continue
+			}
+			if !opened[rel] {
+				srv.DidOpen(ws.URI(rel), files[rel])
+				opened[rel] = true
+			}
 			p := tdPos(ws.URI(rel), line, ch)
 			p["context"] = map[string]interface{}{"includeDeclaration": true, "triggerKind": 1}
 			r, err := srv.Request(args[i], p)
@@ -124,7 +137,7 @@ func init() {
 				return 1
 			}
 			out := strings.ReplaceAll(string(r.Result), ws.Root, "$ROOT")
-			fmt.Printf("%s %s %d:%d -> %s\n", args[i], rel, line, ch, truncate(out, 600))
+			fmt.Printf("%s %s %d:%d -> %s\n", args[i], rel, line, ch, truncate(out, 60000))
 		}
 		return 0
 	}
